@@ -265,6 +265,25 @@ func c14Check(c c14Case) error {
 	sys, scpu := c12System()
 	const never = 0xEE1234
 	budget := uint64(c.Steps)
+	// budget 0: nothing runs, with or without a Logger
+	{
+		load(scpu)
+		r0 := scpu.Raw()
+		for _, traced := range []bool{false, true} {
+			sys.Logger = nil
+			if traced {
+				sys.Logger = &countWriter{}
+			}
+			p := rig.Safe(func() error { sys.RunUntil(never, 0); return nil })
+			sys.Logger = nil
+			if p != nil {
+				return fmt.Errorf("RunUntil with budget 0 (Logger attached: %v) failed: %v", traced, p)
+			}
+			if r1 := scpu.Raw(); r1 != r0 {
+				return fmt.Errorf("RunUntil with a budget of 0 cycles and Logger attached=%v changed the CPU: %+v -> %+v (without a Logger nothing runs)", traced, r0, r1)
+			}
+		}
+	}
 	// run A
 	ma := load(scpu)
 	scpu.C.OnPC, scpu.C.OnWDM = nil, nil
@@ -324,7 +343,25 @@ func c14Check(c c14Case) error {
 	// expected lines
 	mt := load(twin)
 	var cyc uint64
+	// the disassembler appends to the slice it is given: lines accumulated in one slice (with a caller's prefix, little
+	// spare capacity) must equal the lines produced one by one
+	acc := append(make([]byte, 0, 40), "trace:"...)
+	wantAcc := []byte("trace:")
 	for k := 0; cyc < budget; k++ {
+		if k < 40 {
+			var one []byte
+			if p := rig.Safe(func() error {
+				one = twin.C.DisassembleCurrentPC(nil)
+				acc = twin.C.DisassembleCurrentPC(acc)
+				return nil
+			}); p != nil {
+				return fmt.Errorf("instruction %d: DisassembleCurrentPC failed: %v", k, p)
+			}
+			wantAcc = append(wantAcc, one...)
+			if !bytes.Equal(acc, wantAcc) {
+				return fmt.Errorf("instruction %d: appending the trace line to a slice that already holds %d bytes gives %q, want the earlier content followed by the line %q", k, len(wantAcc)-len(one), acc, one)
+			}
+		}
 		st := twin.Arch()
 		if uint32(st.K)<<16|uint32(st.PC) == never {
 			break
@@ -353,9 +390,12 @@ func c14Check(c c14Case) error {
 
 type reservingWriter struct{ lines, reserved, commits int }
 
-func (w *reservingWriter) Write(p []byte) (int, error) { w.lines++; return len(p), nil }
-func (w *reservingWriter) Reserve(n int)               { w.reserved += n }
-func (w *reservingWriter) Commit()                     { w.commits++ }
+func (w *reservingWriter) Write(p []byte) (int, error) {
+	w.lines += bytes.Count(p, []byte{'\n'})
+	return len(p), nil
+}
+func (w *reservingWriter) Reserve(n int) { w.reserved += n }
+func (w *reservingWriter) Commit()       { w.commits++ }
 
 type failingWriter struct{ okLines, n int }
 
